@@ -36,6 +36,7 @@ ASSUMPTIONS = ["real-number semantics; log-space values as positive reals", "mes
 SHIMS_USED = ["np.zeros/np.ones", "logsumexp", "exp"]
 
 NORM_SETS = {
+    "star_orders": [("a", "b", "c"), ("d", "c", "b"), ("c", "b", "e")],
     "chain": [("a", "b"), ("b", "c")],
     "triangle_loop": [("a", "b"), ("b", "c"), ("a", "c")],
     "star": [("a", "b"), ("a", "c"), ("a", "d")],
@@ -50,6 +51,8 @@ TREE_FG = {
     "chain4": ([("a", "b"), ("b", "c"), ("c", "d")], 6),
 }
 RIP_SETS = {
+    "star_orders": [("a", "b", "c"), ("d", "c", "b"), ("c", "b", "e")],
+    "overlap3_orders": [("a", "b", "c"), ("d", "c", "b")],
     "chain": [("a", "b"), ("b", "c")],
     "star": [("a", "b"), ("a", "c"), ("a", "d")],
     "chain4": [("a", "b"), ("b", "c"), ("c", "d")],
@@ -79,8 +82,10 @@ def configs(tier, seed):
     for name, cl in RIP_SETS.items():
         if name == "chain4" and tier == "quick":
             continue
-        cfgs.append(dict(name="gbp_fixpoint:%s" % name, kind="gbp", cliques=cl, sizes=sizes4, seppot=False, cost=10,
-                         timeout=2400 if name == "chain4" else 900, core=name != "chain4"))
+        if name == "star_orders" and tier == "quick":
+            continue
+        cfgs.append(dict(name="gbp_fixpoint:%s" % name, kind="gbp", cliques=cl, sizes=sizes4 if name != "star_orders" else {k: 2 for k in "abcde"},
+                         seppot=False, cost=10, timeout=2400 if name in ("chain4", "star_orders") else 900, core=name not in ("chain4", "star_orders")))
     if tier == "thorough":
         for name, cl in RIP_SETS.items():
             cfgs.append(dict(name="gbp_fixpoint:%s:separator_potentials" % name, kind="gbp", cliques=cl, sizes=sizes4, seppot=True, cost=10,
